@@ -651,7 +651,9 @@ func ruleF8a(c *Ctx) {
 		c.anchorMissing("F8a", "asmdb.FindMinOutputSize")
 		return
 	}
-	firstFlag := func(f *ssa.Function) (val int, pos token.Pos, ok bool) {
+	var firstFlag func(f *ssa.Function) (val int, pos token.Pos, ok bool)
+	flagDepth := 0
+	firstFlag = func(f *ssa.Function) (val int, pos token.Pos, ok bool) {
 		// the FindEncoding call whose block dominates all other FindEncoding calls
 		var calls []ssa.CallInstruction
 		callsIn(f, func(ci ssa.CallInstruction) {
@@ -659,6 +661,23 @@ func ruleF8a(c *Ctx) {
 				calls = append(calls, ci)
 			}
 		})
+		// the query made by a phase helper of the same package on this function's behalf
+		if len(calls) == 0 && flagDepth < 2 && pkgRel(f) == "pkg/asmdb" {
+			var helpers []*ssa.Function
+			callsIn(f, func(ci ssa.CallInstruction) {
+				if g := ci.Common().StaticCallee(); g != nil && g.Pkg == f.Pkg && g != f && len(g.Blocks) > 0 {
+					helpers = append(helpers, g)
+				}
+			})
+			for _, g := range helpers {
+				flagDepth++
+				v, p, k := firstFlag(g)
+				flagDepth--
+				if p != token.NoPos {
+					return v, p, k
+				}
+			}
+		}
 		for _, a := range calls {
 			first := true
 			for _, b := range calls {
